@@ -769,6 +769,9 @@ func (s *Sim) glueWindDown() {
 		msg := fmt.Sprintf("the backend faults stopped, every pending notification was delivered and %d further blocks were connected and announced, yet the dispatcher's best block is %d %s while the chain tip is %d %s: clients are no longer told about the active chain%s (last dispatcher error: %s)",
 			kicks, g.best.Height, short(*g.best.Hash), s.tip(), short(s.tipHash()), why, g.lastErr)
 		if g.staleBest {
+			if dispatcherMirrorStale() {
+				r.Unjudged("depends on the mirrored dispatcher control flow, which no longer matches the tree")
+			}
 			r.FailSig("backend-never-catches-up", "stale-best-after-missed-blocks-rewind", "%s [earlier in this run HandleMissedBlocks rewound the TxNotifier and returned no error, but the dispatcher only adopts the returned best block on error: the block to connect next could not be fetched, so bestBlock stayed at the reorged-out block above the TxNotifier's height]", msg)
 		}
 		r.Fail("backend-never-catches-up", "%s", msg)
